@@ -112,7 +112,7 @@ func wrongOf(r *rand.Rand, right string, others []string) (string, string) {
 
 type ksExport struct{ k, w, pass string }
 
-type ksGen struct {
+type secKsGen struct {
 	g       *Gen
 	r       *rand.Rand
 	pub     string
@@ -130,9 +130,9 @@ type ksGen struct {
 	lastOK  string            // wallet on which the previous op was a successful secret-needing op
 }
 
-func (k *ksGen) op(class, f string, a ...interface{}) { k.g.Op(class, f, a...) }
+func (k *secKsGen) op(class, f string, a ...interface{}) { k.g.Op(class, f, a...) }
 
-func (k *ksGen) presentWallets() []string {
+func (k *secKsGen) presentWallets() []string {
 	var ws []string
 	for _, w := range k.names {
 		if k.present[w] {
@@ -142,7 +142,7 @@ func (k *ksGen) presentWallets() []string {
 	return ws
 }
 
-func (k *ksGen) otherPasses(w string) []string {
+func (k *secKsGen) otherPasses(w string) []string {
 	var o []string
 	for _, n := range k.names {
 		if n != w {
@@ -153,7 +153,7 @@ func (k *ksGen) otherPasses(w string) []string {
 	return o
 }
 
-func (k *ksGen) create() {
+func (k *secKsGen) create() {
 	k.nW++
 	w := fmt.Sprintf("W%d", k.nW)
 	bits := []int{128, 160, 192, 224, 256, 0}[k.r.Intn(6)]
@@ -194,7 +194,7 @@ func validPassGo(p string) bool {
 	return true
 }
 
-func (k *ksGen) newAddr(w string) {
+func (k *secKsGen) newAddr(w string) {
 	if k.nExt[w] >= 8 {
 		return
 	}
@@ -207,7 +207,7 @@ func (k *ksGen) newAddr(w string) {
 }
 
 // gate emits one secret-needing operation on w with the right or a wrong passphrase.
-func (k *ksGen) gate(w string, right bool) {
+func (k *secKsGen) gate(w string, right bool) {
 	p, kind := k.pass[w], "right"
 	if !right {
 		var wk string
@@ -265,7 +265,7 @@ func (k *ksGen) gate(w string, right bool) {
 // ksLevel: the keystore-level entry point KeystoreManager.SignHash leaves the address manager UNLOCKED;
 // while it is, every passphrase check compares the salted hash instead of deriving: wrong candidates must
 // still be refused, the right one accepted, by every secret-needing operation; then lock again.
-func (k *ksGen) ksLevel(w string) {
+func (k *secKsGen) ksLevel(w string) {
 	var usable []string
 	for _, a := range k.addrs[w] {
 		if k.addrIdx[a] < k.nExt[w] {
@@ -342,7 +342,7 @@ func (k *ksGen) ksLevel(w string) {
 	k.lastOK = ""
 }
 
-func (k *ksGen) observe(full bool) {
+func (k *secKsGen) observe(full bool) {
 	k.op("q-klocked", "klocked")
 	if full {
 		k.op("q-kstate", "kstate")
@@ -351,7 +351,7 @@ func (k *ksGen) observe(full bool) {
 	}
 }
 
-func (k *ksGen) restart() {
+func (k *secKsGen) restart() {
 	ws := k.presentWallets()
 	switch {
 	case k.r.Intn(3) == 0 && len(ws) > 0:
@@ -374,7 +374,7 @@ func (k *ksGen) restart() {
 	k.lastOK = ""
 }
 
-func (k *ksGen) chpub() {
+func (k *secKsGen) chpub() {
 	ws := k.presentWallets()
 	switch c := k.r.Intn(6); {
 	case c == 0:
@@ -397,7 +397,7 @@ func (k *ksGen) chpub() {
 	k.lastOK = ""
 }
 
-func (k *ksGen) removeAndMaybeReimport() {
+func (k *secKsGen) removeAndMaybeReimport() {
 	ws := k.presentWallets()
 	if len(ws) == 0 {
 		return
@@ -484,7 +484,7 @@ func (k *ksGen) removeAndMaybeReimport() {
 func genSecKeys(g *Gen) {
 	nHist := g.Scale(70, 1000)
 	for h := 0; h < nHist; h++ {
-		k := &ksGen{g: g, r: g.Rng, pub: pubPass, present: map[string]bool{}, pass: map[string]string{}, ent: map[string]string{},
+		k := &secKsGen{g: g, r: g.Rng, pub: pubPass, present: map[string]bool{}, pass: map[string]string{}, ent: map[string]string{},
 			nExt: map[string]int{}, addrs: map[string][]string{}, addrIdx: map[string]int{}, ctx: map[string]string{}}
 		g.Reset()
 		if g.Rng.Intn(10) == 0 {
